@@ -283,4 +283,239 @@ example :
 /-- multi-byte text: "é" is counted as 1 but written as 2 bytes — the file rotates later, never earlier -/
 example : WellCounted (.write [195, 169] 1) := by simp [WellCounted]
 
+/-! ### the enlarged history language: writes refused by the encoder, write permission taken away and given back
+
+`XOp` (`TwistedModel/Fs/LogFile.lean`): `.op` — the operations above; `.fail` — a `write(text)` whose text has no
+UTF-8 encoding (`rotate()` may have run, nothing is written); `.perm b` — the directory or the file becomes
+read-only (`b = true`) or writable again: while it is read-only `rotate()` returns at once.  Every theorem above
+is re-stated over these histories. -/
+
+/-- the retained data depends on the contents of the files only (not on the order of the directory) -/
+theorem retained_congr {a b : Fs} (h : ∀ n, get a n = get b n) : retained a = retained b := by
+  have ha : Bounded (max (maxIdx a) (maxIdx b)) a := fun j hj => bounded_maxIdx a j (by omega)
+  have hb : Bounded (max (maxIdx a) (maxIdx b)) b := fun j hj => bounded_maxIdx b j (by omega)
+  have hc : content a = content b := by funext i; simp [content, h]
+  rw [retained_eq ha, retained_eq hb]
+  simp only [retainedUpTo, hc]
+
+/-- writing nothing changes no file -/
+theorem get_apply_write_nil (fs : Fs) (n m : Name) : get (Prim.apply fs (.write n [])) m = get fs m := by
+  rw [get_apply_write]
+  by_cases h : m = n
+  · subst h; cases get fs m <;> simp
+  · simp [h]
+
+/-- **a refused write is a write of nothing, minus the (empty) write itself**: same rotation, same `size` -/
+theorem failTrace_eq (cfg : Cfg) (size : Nat) (fs : Fs) :
+    (failTrace cfg size fs).1 ++ [.write (rot 0) []] = (opTrace cfg size fs (.write [] 0)).1 ∧
+    (failTrace cfg size fs).2 = (opTrace cfg size fs (.write [] 0)).2 := by
+  unfold failTrace opTrace
+  by_cases h : cfg.rotateLength ≠ 0 ∧ cfg.rotateLength ≤ size
+  · simp [h]
+  · simp [h]
+
+/-- … and it leaves every file as that write of nothing does -/
+theorem failTrace_files (cfg : Cfg) (size : Nat) (fs : Fs) (n : Name) :
+    get (run (failTrace cfg size fs).1 fs) n = get (stepOp cfg (size, fs) (.write [] 0)).2 n := by
+  unfold stepOp
+  rw [← (failTrace_eq cfg size fs).1, run_append]
+  simp only [run_cons, run_nil]
+  rw [get_apply_write_nil]
+
+def xdataOf : XOp → Bytes
+  | .op o => dataOf o
+  | .fail => []
+  | .perm _ => []
+
+/-- everything written by an enlarged history, in order -/
+def xwritten (xs : List XOp) : Bytes := xs.flatMap xdataOf
+
+def XWellCounted : XOp → Prop
+  | .op o => WellCounted o
+  | .fail => True
+  | .perm _ => True
+
+/-- state of a live `LogFile` in the enlarged language: `(size, readOnly, directory)` -/
+def xstep (cfg : Cfg) (st : Nat × Bool × Fs) (x : XOp) : Nat × Bool × Fs :=
+  ((xopTrace cfg st.1 st.2.1 st.2.2 x).2.1, (xopTrace cfg st.1 st.2.1 st.2.2 x).2.2,
+    run (xopTrace cfg st.1 st.2.1 st.2.2 x).1 st.2.2)
+
+def xrunOps (cfg : Cfg) (st : Nat × Bool × Fs) (xs : List XOp) : Nat × Bool × Fs := xs.foldl (xstep cfg) st
+
+/-- the configuration an operation runs under -/
+def effCfg (cfg : Cfg) (ro : Bool) : Cfg := if ro then noRotate cfg else cfg
+
+theorem effCfg_maxRot (cfg : Cfg) (ro : Bool) : (effCfg cfg ro).maxRot = cfg.maxRot := by
+  cases ro <;> rfl
+
+/-- one step of the enlarged language: the retained data is a suffix `R` of what was retained (all of it without
+    a retention count) followed by the data of the step; the log stays live; rotated files stay long enough -/
+theorem xstep_ok (cfg : Cfg) (st : Nat × Bool × Fs) (x : XOp) (hl : Live (st.1, st.2.2)) (hw : XWellCounted x) :
+    (∃ R, R <:+ retained st.2.2 ∧ (cfg.maxRot = none → R = retained st.2.2) ∧
+      retained (xstep cfg st x).2.2 = R ++ xdataOf x) ∧
+    Live ((xstep cfg st x).1, (xstep cfg st x).2.2) ∧
+    (AllLong cfg st.2.2 → AllLong cfg (xstep cfg st x).2.2) := by
+  obtain ⟨size, ro, fs⟩ := st
+  cases x with
+  | perm b =>
+    refine ⟨⟨retained fs, List.suffix_refl _, fun _ => rfl, ?_⟩, ?_, fun h => ?_⟩
+    · simp [xstep, xopTrace, xdataOf]
+    · simpa [xstep, xopTrace] using hl
+    · simpa [xstep, xopTrace] using h
+  | op o =>
+    have hs : (xstep cfg (size, ro, fs) (.op o)).2.2 = (stepOp (effCfg cfg ro) (size, fs) o).2 := by
+      simp [xstep, xopTrace, stepOp, effCfg]
+    have hs1 : (xstep cfg (size, ro, fs) (.op o)).1 = (stepOp (effCfg cfg ro) (size, fs) o).1 := by
+      simp [xstep, xopTrace, stepOp, effCfg]
+    obtain ⟨⟨R, r1, r2, r3⟩, _, _⟩ := step_complete (effCfg cfg ro) (size, fs) o hl
+    refine ⟨⟨R, r1, fun hn => r2 (by rw [effCfg_maxRot]; exact hn), ?_⟩, ?_, fun h => ?_⟩
+    · rw [hs]; exact r3
+    · have := live_step (effCfg cfg ro) (size, fs) o hl hw
+      rw [hs, hs1]; exact this
+    · rw [hs]
+      cases ro with
+      | false => exact allLong_step cfg (size, fs) o hl h
+      | true =>
+        -- no rotation: the rotated files are untouched
+        obtain ⟨_, _, h2⟩ := step_complete (noRotate cfg) (size, fs) o hl
+        intro i c hc
+        have hr : rotates (noRotate cfg) size o = false := by cases o <;> simp [rotates, noRotate]
+        have := h2 i
+        simp only [hr, Bool.false_eq_true, if_false] at this
+        exact h i c (by rw [← this]; exact hc)
+  | fail =>
+    have hg : ∀ n, get (xstep cfg (size, ro, fs) .fail).2.2 n =
+        get (stepOp (effCfg cfg ro) (size, fs) (.write [] 0)).2 n := by
+      intro n
+      have := failTrace_files (effCfg cfg ro) size fs n
+      simpa [xstep, xopTrace, effCfg] using this
+    have hs1 : (xstep cfg (size, ro, fs) .fail).1 = (stepOp (effCfg cfg ro) (size, fs) (.write [] 0)).1 := by
+      have := (failTrace_eq (effCfg cfg ro) size fs).2
+      simpa [xstep, xopTrace, stepOp, effCfg] using this
+    obtain ⟨⟨R, r1, r2, r3⟩, _, _⟩ := step_complete (effCfg cfg ro) (size, fs) (.write [] 0) hl
+    have hlive := live_step (effCfg cfg ro) (size, fs) (.write [] 0) hl (by simp [WellCounted])
+    refine ⟨⟨R, r1, fun hn => r2 (by rw [effCfg_maxRot]; exact hn), ?_⟩, ?_, fun h => ?_⟩
+    · rw [retained_congr hg, r3]; simp [xdataOf, dataOf]
+    · refine ⟨?_, ?_⟩
+      · show exists_ _ (rot 0) = true
+        simp only [exists_, hg]; exact hlive.1
+      · show _ ≤ (content _ 0).length
+        simp only [content, hg, hs1]; exact hlive.2
+    · intro i c hc
+      rw [hg] at hc
+      cases ro with
+      | false => exact allLong_step cfg (size, fs) (.write [] 0) hl h i c hc
+      | true =>
+        obtain ⟨_, _, h2⟩ := step_complete (noRotate cfg) (size, fs) (.write [] 0) hl
+        have hr : rotates (noRotate cfg) size (.write [] 0) = false := by simp [rotates, noRotate]
+        have := h2 i
+        simp only [hr, Bool.false_eq_true, if_false] at this
+        exact h i c (by rw [← this]; exact hc)
+
+/-- **C53, histories, enlarged.**  `retained_is_suffix_of_written` and `rotated_file_at_least_rotateLength` for
+    histories in which writes may be refused by the encoder and the write permission comes and goes. -/
+theorem x_retained_is_suffix_of_written (cfg : Cfg) (st : Nat × Bool × Fs) (xs : List XOp)
+    (hl : Live (st.1, st.2.2)) (hw : ∀ x ∈ xs, XWellCounted x) :
+    retained (xrunOps cfg st xs).2.2 <:+ retained st.2.2 ++ xwritten xs ∧
+    (cfg.maxRot = none → retained (xrunOps cfg st xs).2.2 = retained st.2.2 ++ xwritten xs) ∧
+    Live ((xrunOps cfg st xs).1, (xrunOps cfg st xs).2.2) ∧
+    (AllLong cfg st.2.2 → AllLong cfg (xrunOps cfg st xs).2.2) := by
+  induction xs generalizing st with
+  | nil => simp [xrunOps, xwritten, hl]
+  | cons x rest ih =>
+    obtain ⟨⟨R, r1, r2, r3⟩, hl', ha'⟩ := xstep_ok cfg st x hl (hw x (by simp))
+    obtain ⟨i1, i2, i3, i4⟩ := ih (xstep cfg st x) hl' (fun o ho => hw o (by simp [ho]))
+    have hw' : xwritten (x :: rest) = xdataOf x ++ xwritten rest := by simp [xwritten]
+    refine ⟨?_, ?_, i3, fun h => i4 (ha' h)⟩
+    · show retained (xrunOps cfg (xstep cfg st x) rest).2.2 <:+ _
+      rw [hw', ← List.append_assoc]
+      refine i1.trans ?_
+      rw [r3]
+      exact suffix_append_right _ (suffix_append_right _ r1)
+    · intro hn
+      show retained (xrunOps cfg (xstep cfg st x) rest).2.2 = _
+      rw [i2 hn, r3, r2 hn, hw', List.append_assoc]
+
+theorem crashAt_append_lt (A B : List Prim) (k p : Nat) (fs : Fs) (h : k < A.length) :
+    crashAt (A ++ B) k p fs = crashAt A k p fs := by
+  simp only [crashAt, List.take_append_of_le_length (Nat.le_of_lt h), List.drop_append_of_le_length (Nat.le_of_lt h)]
+  cases hd : A.drop k with
+  | nil =>
+    exfalso
+    have := congrArg List.length hd
+    simp at this
+    omega
+  | cons a t => cases a <;> simp
+
+/-- **one step of the enlarged language, every crash point**: as `op_crash` -/
+theorem xop_crash (cfg : Cfg) (size : Nat) (ro : Bool) (fs : Fs) (x : XOp) (k p : Nat)
+    (hcur : exists_ fs (rot 0) = true) :
+    ∃ R q, R <:+ retained fs ∧ (cfg.maxRot = none → R = retained fs) ∧ q <+: xdataOf x ∧
+      retained (crashAt (xopTrace cfg size ro fs x).1 k p fs) = R ++ q := by
+  cases x with
+  | perm b =>
+    exact ⟨retained fs, [], List.suffix_refl _, fun _ => rfl, List.nil_prefix, by simp [xopTrace, crashAt]⟩
+  | op o =>
+    obtain ⟨R, q, r1, r2, r3, _, r5⟩ := op_crash (effCfg cfg ro) size fs o k p hcur
+    refine ⟨R, q, r1, fun hn => r2 (by rw [effCfg_maxRot]; exact hn), r3, ?_⟩
+    have : (xopTrace cfg size ro fs (.op o)).1 = (opTrace (effCfg cfg ro) size fs o).1 := by
+      simp [xopTrace, effCfg]
+    rw [this]; exact r5
+  | fail =>
+    have ht : (xopTrace cfg size ro fs .fail).1 = (failTrace (effCfg cfg ro) size fs).1 := by
+      simp [xopTrace, effCfg]
+    rw [ht]
+    by_cases hk : k < (failTrace (effCfg cfg ro) size fs).1.length
+    · obtain ⟨R, q, r1, r2, r3, _, r5⟩ := op_crash (effCfg cfg ro) size fs (.write [] 0) k p hcur
+      refine ⟨R, q, r1, fun hn => r2 (by rw [effCfg_maxRot]; exact hn), by simpa [xdataOf, dataOf] using r3, ?_⟩
+      rw [← (failTrace_eq (effCfg cfg ro) size fs).1, crashAt_append_lt _ _ _ _ _ hk] at r5
+      exact r5
+    · obtain ⟨R, q, r1, r2, r3, _, r5⟩ := op_crash (effCfg cfg ro) size fs (.write [] 0)
+        (opTrace (effCfg cfg ro) size fs (.write [] 0)).1.length 0 hcur
+      refine ⟨R, q, r1, fun hn => r2 (by rw [effCfg_maxRot]; exact hn), by simpa [xdataOf, dataOf] using r3, ?_⟩
+      rw [crashAt_ge _ _ _ _ (Nat.le_refl _)] at r5
+      rw [crashAt_ge _ _ _ _ (Nat.le_of_not_lt hk), ← r5]
+      exact retained_congr (fun n => failTrace_files (effCfg cfg ro) size fs n)
+
+/-- **C53, crash, enlarged.**  After any enlarged history, a step killed at any cut of its primitive trace: the
+    retained data is a suffix of (start ++ everything written ++ a prefix of the interrupted write), in order;
+    all of it without a retention count. -/
+theorem x_crash_never_reorders (cfg : Cfg) (st : Nat × Bool × Fs) (xs : List XOp) (x : XOp) (k p : Nat)
+    (hl : Live (st.1, st.2.2)) (hw : ∀ o ∈ xs, XWellCounted o) :
+    let stn := xrunOps cfg st xs
+    let S := crashAt (xopTrace cfg stn.1 stn.2.1 stn.2.2 x).1 k p stn.2.2
+    ∃ q, q <+: xdataOf x ∧ retained S <:+ retained st.2.2 ++ xwritten xs ++ q ∧
+      (cfg.maxRot = none → retained S = retained st.2.2 ++ xwritten xs ++ q) := by
+  intro stn S
+  obtain ⟨h1, h2, h3, _⟩ := x_retained_is_suffix_of_written cfg st xs hl hw
+  obtain ⟨R, q, r1, r2, r3, r5⟩ := xop_crash cfg stn.1 stn.2.1 stn.2.2 x k p h3.1
+  refine ⟨q, r3, ?_, fun hn => ?_⟩
+  · show retained S <:+ _
+    rw [r5]; exact suffix_append_right _ (r1.trans h1)
+  · show retained S = _
+    rw [r5, r2 hn, h2 hn]
+
+/-- a history of the basic language is a history of the enlarged one (nothing refused, always writable) -/
+theorem xrunOps_op (cfg : Cfg) (st : Nat × Fs) (ops : List Op) :
+    xrunOps cfg (st.1, false, st.2) (ops.map .op) =
+      ((runOps cfg st ops).1, false, (runOps cfg st ops).2) := by
+  induction ops generalizing st with
+  | nil => rfl
+  | cons o rest ih =>
+    have : xstep cfg (st.1, false, st.2) (.op o) = ((stepOp cfg st o).1, false, (stepOp cfg st o).2) := by
+      simp [xstep, xopTrace, stepOp]
+    simp only [List.map_cons, xrunOps, List.foldl_cons, runOps] at ih ⊢
+    rw [this]
+    exact ih (stepOp cfg st o)
+
+/-! non-vacuity: rotateLength 2; "ab", a refused text (rotates: "ab" → `path.1`), read-only, "cd", "ef" (no rotation
+    although 4 ≥ 2), writable again, "g" (rotates: "cdef" → `path.1`, "ab" → `path.2`) -/
+example :
+    let cfg : Cfg := { rotateLength := 2, maxRot := none }
+    let xs : List XOp := [.op (.write [97, 98] 2), .fail, .perm true, .op (.write [99, 100] 2), .op (.write [101, 102] 2),
+      .perm false, .op (.write [103] 1)]
+    let fin := xrunOps cfg ((openLog []).1, false, (openLog []).2) xs
+    retained fin.2.2 = [97, 98, 99, 100, 101, 102, 103] ∧ get fin.2.2 (rot 2) = some [97, 98] ∧
+      get fin.2.2 (rot 1) = some [99, 100, 101, 102] ∧ get fin.2.2 (rot 0) = some [103] ∧ get fin.2.2 (rot 3) = none := by decide
+
 end TwistedProps.C53
